@@ -472,6 +472,27 @@ pub fn c04(tier: &str, seed: u64) -> i32 {
             let starts: Vec<crate::engine_a::Start> = crate::props_a::empty_start(&mut ctx, &cfg).into_iter().collect();
             crate::props_a::run_closure(&mut ctx, "2 string keys that are not valid UTF-8 x {5,40} [string, 1 bucket]", &cfg, starts, 100_000, 30.0);
         }
+        if ctx.run.violations.is_empty() {
+            crate::props_a::int_boundary_closures(&mut ctx, "C04", crate::engine_a::O_ITER, 0);
+        }
+        {
+            // one live handle, traversals at arbitrary positions of the history (not after every call):
+            // three same-length keys in a one-bucket table, so that a freed record's offset is reused
+            use crate::engine_b::*;
+            let mut letters: Vec<Letter> = Vec::new();
+            for k in 0..3u8 {
+                letters.push(Letter { kind: L_PUT, map: 0, handle: H_FIRST, key: k, val: 0 });
+                letters.push(Letter { kind: L_DEL, map: 0, handle: H_FIRST, key: k, val: 0 });
+            }
+            letters.push(Letter { kind: L_ITER_CHECK, map: 0, handle: H_FIRST, key: 0, val: 0 });
+            letters.push(Letter { kind: L_ITER_CHECK, map: 0, handle: H_CLONE, key: 0, val: 0 });
+            let bcfg = BCfg { prop: "C04".into(), maps: vec![std_map(KtId::Bytes, 1, 3, 9, seed, "m")], val_lens: vec![6], letters, depth: if thorough { 7 } else { 6 }, flags: 0, seed, reopen: vec![], other_params: Params::defaults() };
+            run_b(&mut ctx, "put/delete on 3 same-length keys in one chain with traversals at arbitrary positions (live handle and its clone)", &bcfg, if thorough { 200.0 } else { 20.0 });
+        }
+        // key slot classes: a freed key slot of every class is reused under the iterator oracle
+        if ctx.run.violations.is_empty() {
+            crate::props_a::class_ladder_keys(&mut ctx, "C04", crate::engine_a::O_ITER, 0, 2);
+        }
         // histories in which key records are relocated and chains re-linked (offsets crossing 16 KiB)
         let specs = vec![
             crate::props_c08::SeedSpec { file: "val", boundary: 16 * 1024, eps: 16, free_slots: 0 , val_pad: 0},
